@@ -41,9 +41,9 @@ TIERS = {
     'quick': dict(
         exhaustive=[dict(min_n=1, max_n=3, max_groups=1, max_reps=3,
                          timing=True)],
-        sampled=[(3, 700), (4, 1300), (5, 600)],
-        abstract_cap=2000, programs=20, stub_times=[1, 2, 3, 5],
-        runmany=5, shards=5,
+        sampled=[(3, 500), (4, 1000), (5, 500)],
+        abstract_cap=1500, programs=16, stub_times=[1, 2, 3, 5],
+        runmany=4, shards=5,
         enum_cfg='MCConcertinaEnum.cfg',
         enum_args=dict(min_n=1, max_n=3, min_reps=1, max_reps=2, max_groups=1,
                        max_len=2, timing=True)),
@@ -379,6 +379,11 @@ def Run(tier):
 
   jobs.Close()
   info['tlc_wall'] = clock()
+  info['tlc_job_wall_by_kind'] = {}
+  for kind, _, _, fut in jobs.futs:
+    info['tlc_job_wall_by_kind'][kind] = round(
+        info['tlc_job_wall_by_kind'].get(kind, 0) + fut.result().wall, 1)
+  info['tlc_jobs'] = len(jobs.futs)
 
   # ---- 3. model-level results
   states = trans = 0
